@@ -470,6 +470,27 @@ pub fn micro_scenarios() -> Vec<Scenario> {
     ]
 }
 
+/// Small enough for an unbounded DFS: every poll order of three timers that are due at the same instant
+pub fn exhaustive_scenarios() -> Vec<Scenario> {
+    use Kind as K;
+    vec![
+        Scenario {
+            timers: vec![t(K::After, 5, Via::Ref), t(K::Interval, 5, Via::Ref), t(K::After, 5, Via::Ref)],
+            in_pre_start: vec![0, 1, 2],
+            clients: vec![],
+            post_stop_yield: false,
+            horizon: 7,
+        },
+        Scenario {
+            timers: vec![t(K::After, 1, Via::Ref), t(K::After, 1, Via::Derived), t(K::Kill, 1, Via::Ref)],
+            in_pre_start: vec![0, 1, 2],
+            clients: vec![],
+            post_stop_yield: false,
+            horizon: 4,
+        },
+    ]
+}
+
 pub fn rand_scenario(rng: &mut Rng) -> Scenario {
     let fast = rng.chance(1, 3);
     let periods: &[u64] = if fast { &[0, 1, 1, 5] } else { &[0, 1, 5, 5, 50, 50] };
@@ -569,6 +590,7 @@ pub fn batch(out: &str, tier: &str, seed: u64) -> Value {
     let mut nontrivial = std::collections::HashSet::new();
     let mut bad_runs = 0u64;
     let mut exhausted = 0u64;
+    let mut exhaustive_runs = 0u64;
     for sc in micro_scenarios() {
         let mut ex = Explorer::new(Mode::Dfs { preempt_bound: Some(3) }, seed);
         let mut n = 0;
@@ -605,6 +627,30 @@ pub fn batch(out: &str, tier: &str, seed: u64) -> Value {
             }
         }
     }
+    for sc in exhaustive_scenarios() {
+        let mut ex = Explorer::new(Mode::Dfs { preempt_bound: None }, seed);
+        let mut n = 0;
+        loop {
+            ex.begin_run();
+            let (evs, meta, bad) = one_run(&sc, &mut ex);
+            let h = b.run(meta, &evs);
+            if ex.nontrivial {
+                nontrivial.insert(h);
+            }
+            if bad {
+                bad_runs += 1;
+            }
+            n += 1;
+            if !ex.end_run() {
+                exhausted += 1;
+                break;
+            }
+            if n >= 20 * dfs_cap {
+                break;
+            }
+        }
+        exhaustive_runs += n as u64;
+    }
     let mut rng = Rng(seed ^ 0x74696d65);
     for _ in 0..nrand {
         let sc = rand_scenario(&mut rng);
@@ -623,7 +669,7 @@ pub fn batch(out: &str, tier: &str, seed: u64) -> Value {
     }
     b.finish();
     json!({"family": "timer", "runs": b.runs, "events": b.events, "distinct": b.hashes.len(), "distinct_nontrivial": nontrivial.len(),
-           "bad_runs": bad_runs, "dfs_exhausted": exhausted, "samples": b.samples})
+           "bad_runs": bad_runs, "dfs_exhausted": exhausted, "exhaustive_runs": exhaustive_runs, "samples": b.samples})
 }
 
 pub fn dispatch(cmd: &str, a: &std::collections::HashMap<String, String>) -> Option<Value> {
